@@ -150,16 +150,17 @@ func buildConnModel(v *tunView) *connModel {
 	}
 	// Merge the stream of frames read by the client with its own connect requests, by event number.
 	type ev struct {
-		at  Stamp
-		rxi int // index into v.rx, or -1 for a connect request written by the client
+		at   Stamp
+		rxi  int  // index into v.rx, or -1 for a connect request written by the client
+		werr bool // the connect request could not be written
 	}
 	var evs []ev
 	for i, x := range v.rx {
-		evs = append(evs, ev{x.At, i})
+		evs = append(evs, ev{x.At, i, false})
 	}
 	for _, x := range v.tx {
-		if x.F.OK && x.F.Svc == svcConnReq && !x.Werr {
-			evs = append(evs, ev{x.At, -1})
+		if x.F.OK && x.F.Svc == svcConnReq {
+			evs = append(evs, ev{x.At, -1, x.Werr})
 		}
 	}
 	sort.SliceStable(evs, func(i, j int) bool { return evs[i].at.Seq < evs[j].at.Seq })
@@ -184,6 +185,25 @@ func buildConnModel(v *tunView) *connModel {
 			if ev.rxi >= 0 {
 				m.mode[ev.rxi] = -2
 			}
+			continue
+		}
+		if ev.rxi < 0 && ev.werr {
+			// a connect request that could not be written ends the connect exchange with an error:
+			// the tunnel terminates (or was never created)
+			if mode == mdProcess {
+				amb := -1
+				if lastRx >= 0 && m.mode[lastRx] == len(m.epochs)-1 {
+					amb = lastRx
+					m.mode[lastRx] = -2
+				}
+				endEpoch(ev.at, "async-reconnect", amb)
+				m.asyncReconnects++
+			}
+			if mode != mdDead && len(m.epochs) > 0 {
+				st := ev.at
+				m.term, m.termWhy = &st, "connect-write-error"
+			}
+			mode = mdDead
 			continue
 		}
 		if ev.rxi < 0 {
@@ -337,6 +357,17 @@ func checkC03(v *tunView, m *connModel) {
 	}
 	reqs := map[int]*reqTx{}
 	var order []*reqTx
+	ackedBy := func(o *reqTx, at Stamp) bool {
+		for _, y := range v.rx {
+			if y.At.Seq >= at.Seq {
+				break
+			}
+			if y.F.OK && y.F.Svc == svcTunnelRes && y.F.Channel == o.ch && y.F.Seq == o.seq {
+				return true
+			}
+		}
+		return false
+	}
 	for _, x := range v.tx {
 		if !x.F.OK || x.F.Svc != svcTunnelReq || x.Werr {
 			continue
@@ -360,17 +391,6 @@ func checkC03(v *tunView, m *connModel) {
 		// not returned, no acknowledgement for it (OK or error) has been read yet, and its response
 		// timeout has not elapsed. (The Send's return itself may lag: it releases the sender lock,
 		// and the next sender may transmit, before it gets to return.)
-		ackedBy := func(o *reqTx, at Stamp) bool {
-			for _, y := range v.rx {
-				if y.At.Seq >= at.Seq {
-					break
-				}
-				if y.F.OK && y.F.Svc == svcTunnelRes && y.F.Channel == o.ch && y.F.Seq == o.seq {
-					return true
-				}
-			}
-			return false
-		}
 		for _, o := range order {
 			if o == q {
 				continue
@@ -485,6 +505,34 @@ func checkC03(v *tunView, m *connModel) {
 	// with an error status consumes a number too; where it is uncertain whether a failed Send
 	// consumed one, both continuations are allowed). N2: a request following an unacknowledged
 	// one on the same channel reuses its number (stop-and-wait), or restarts at 0.
+	// A matching acknowledgement with an error status makes Send fail: once the receive loop has
+	// taken such an acknowledgement in while the request is waiting, the Send must return (with an
+	// error) in that instant.
+	if !m.giveUp {
+		for i, x := range v.rx {
+			if !x.F.OK || x.F.Svc != svcTunnelRes || x.F.Status == 0 || m.mode[i] < 0 {
+				continue
+			}
+			if x.At.T <= m.epochs[m.mode[i]].StallUntil+eps {
+				continue // the receive loop may not be running yet
+			}
+			for _, q := range order {
+				if q.ch != x.F.Channel || q.seq != x.F.Seq || q.at[0].Seq > x.At.Seq {
+					continue
+				}
+				if q.call.Done && q.call.Ret.T <= x.At.T {
+					continue // not waiting any more
+				}
+				if ackedBy(q, x.At) {
+					continue // an earlier acknowledgement is being consumed
+				}
+				if !q.call.Done || q.call.Ret.T > x.At.T+eps || q.call.OK {
+					e.Violate("C03", "error-ack-not-failing-send", "acknowledgement {ch=%d seq=%d status=%#x} was read at %v while Send id=%d was waiting for exactly that acknowledgement; the Send returned at %v with ok=%v", x.F.Channel, x.F.Seq, x.F.Status, x.At.T, q.call.ID, q.call.Ret.T, q.call.OK)
+				}
+				e.Probe("error-ack-while-waiting")
+			}
+		}
+	}
 	// Requests are grouped by connection epoch (from the connection model), not by channel
 	// value: a gateway may hand out the same channel id again. A request first transmitted while
 	// the receive loop was still waiting for the sender lock (the epoch's stall window) may
@@ -539,7 +587,10 @@ func checkC03(v *tunView, m *connModel) {
 					first = false
 				}
 			}
-			if first && q.seq != 0 && q.at[0].T > m.epochs[gk].StallUntil+eps {
+			// (a channel id that differs from the previous connection's proves that the request was
+			// built after the new channel had been stored, whenever it left)
+			certainNew := gk > 0 && q.ch == m.epochs[gk].Channel && q.ch != m.epochs[gk-1].Channel
+			if first && q.seq != 0 && (certainNew || q.at[0].T > m.epochs[gk].StallUntil+eps) {
 				e.Violate("C03", "first-seq-not-zero", "the first request after the (re)connect at %v (id=%d, channel %d, first sent %v) carries sequence number %d, not 0", m.epochs[gk].Start.T, q.call.ID, q.ch, q.at[0].T, q.seq)
 				e.Violate("C09", "seq-not-restarted", "the first request after the (re)connect at %v (id=%d, channel %d, first sent %v) carries sequence number %d, not 0", m.epochs[gk].Start.T, q.call.ID, q.ch, q.at[0].T, q.seq)
 			}
